@@ -9,6 +9,7 @@ import (
 	"encoding/json"
 	"fmt"
 	"os"
+	"path/filepath"
 	"reflect"
 	"strconv"
 	"strings"
@@ -231,3 +232,48 @@ func zzReplayFrom(g *Graph, events []Event) (*Graph, error) {
 func zzItoa(n int) string { return strconv.Itoa(n) }
 
 func zzBtoa(b bool) string { return strconv.FormatBool(b) }
+
+// zzStatAny: natively the file system is real; the byte-level path harness only needs os.Stat to be
+// arbitrary on the symbolic side.
+func zzStatAny() {}
+
+// zzLastStat natively: the path-rules unit is decided symbolically; natively the real file system
+// answers (the replayed scenario creates the file when the model says it exists).
+func zzLastStat() (string, bool, bool) { return "", false, false }
+
+// zzRepoDir: symbolically an arbitrary directory name; natively a scratch directory a few levels
+// deep (so that a path climbing out by one or two ".." still lands in scratch space).
+func zzRepoDir() string {
+	base, err := os.MkdirTemp("", "zzrepo")
+	if err != nil {
+		panic(err)
+	}
+	zzTempDirs = append(zzTempDirs, base)
+	d := filepath.Join(base, "a", "b", "c")
+	os.MkdirAll(d, 0o755)
+	return d
+}
+
+var zzTempDirs []string
+
+// zzStageFile: natively creates what the model's os.Stat answered for the candidate path (a
+// regular file, a directory, or nothing), provided the cleaned path stays inside scratch space.
+func zzStageFile(repo, raw string) {
+	if zzLoad().Values["stat.missing!1"] == "true" {
+		return
+	}
+	if filepath.IsAbs(raw) {
+		return
+	}
+	p := filepath.Join(repo, filepath.Clean(raw))
+	base := zzTempDirs[len(zzTempDirs)-1]
+	if !strings.HasPrefix(p, base+string(filepath.Separator)) {
+		return
+	}
+	if zzLoad().Values["stat.isdir!1"] == "true" {
+		os.MkdirAll(p, 0o755)
+		return
+	}
+	os.MkdirAll(filepath.Dir(p), 0o755)
+	os.WriteFile(p, []byte("x"), 0o644)
+}
